@@ -80,42 +80,51 @@ def independence(run, repo, pkg):
     from ..exprnf import Undecidable
 
     class _G:
-        def __init__(self, ans):
-            self.ans = ans
+        def __init__(self, qubits):
+            self.qubits = qubits
     verdict = True
+    layers = [(), ((0,),), ((2,),), ((0, 1),), ((1, 2),), ((3, 1),), ((0,), (2,)), ((0, 1), (2, 3)), ((1, 0), (3, 2)), ((2, 3), (0,)), ((0,), (1,), (3,))]
+    incoming = [(0,), (1,), (2,), (3,), (0, 1), (1, 2), (2, 3), (0, 2), (0, 3), (1, 3), (2, 0), (3, 1), (3, 0), (2, 1)]
     try:
-        for n_g in range(4):
-            for pat in itertools.product((True, False), repeat=n_g):
-                gates = tuple(_G(a) for a in pat)
+        for lay in layers:
+            for inc in incoming:
+                gates = tuple(_G(q) for q in lay)
+                gin = _G(inc)
 
                 def attr(n, env, rec, gates=gates):
                     if norm(n) == 'self.gates':
                         return gates
+                    if n.attr == 'qubits':
+                        b_ = rec(n.value)
+                        if isinstance(b_, _G):
+                            return b_.qubits
                     raise Undecidable('attribute ' + norm(n))
 
                 def call(n, env, rec):
                     f_ = n.func
                     if isinstance(f_, ast.Attribute) and f_.attr == 'independent_from' and len(n.args) == 1:
-                        b_ = rec(f_.value)
-                        if isinstance(b_, _G) and norm(n.args[0]) == o2:
-                            return b_.ans
-                    if isinstance(f_, ast.Name) and f_.id in ('all', 'any', 'bool', 'len', 'list', 'tuple', 'sum') and len(n.args) == 1:
-                        return {'all': all, 'any': any, 'bool': bool, 'len': len, 'list': tuple, 'tuple': tuple, 'sum': sum}[f_.id](rec(n.args[0]))
+                        b_, o_ = rec(f_.value), rec(n.args[0])
+                        if isinstance(b_, _G) and isinstance(o_, _G):
+                            return not (set(b_.qubits) & set(o_.qubits))      # the gate predicate, decided on its own above
+                    if isinstance(f_, ast.Name) and f_.id in ('all', 'any', 'bool', 'len', 'list', 'tuple', 'sum', 'set', 'min', 'max', 'sorted') and len(n.args) == 1:
+                        return {'all': all, 'any': any, 'bool': bool, 'len': len, 'list': tuple, 'tuple': tuple, 'sum': sum, 'set': set, 'min': min, 'max': max,
+                                'sorted': lambda x: tuple(sorted(x))}[f_.id](rec(n.args[0]))
                     raise Undecidable('call ' + norm(f_))
+                from ..rules.tables import std_sub
                 res = []
-                mini.execute(li.node, {o2: 'GATE'}, call=call, attr=attr, result=res)
+                mini.execute(li.node, {o2: gin}, call=call, attr=attr, sub=std_sub, result=res)
                 if len(res) != 1:
                     raise Undecidable('no result')
-                if bool(res[0]) != all(pat):
-                    verdict = pat
+                if bool(res[0]) != all(not (set(q) & set(inc)) for q in lay):
+                    verdict = (lay, inc)
                     raise StopIteration
     except StopIteration:
         pass
-    except (Undecidable, TypeError) as e:
+    except (Undecidable, TypeError, ValueError) as e:
         verdict = None
         run.undecided('R11.indep', li, 'independent_from', 'layer predicate not executable on stub gates: %s' % e)
     if verdict is not None:
-        run.check(verdict is True, 'R11.indep', li, 'layer.independent_from', 'a layer is independent from a gate iff ALL of its gates are: with the gates answering %s '
+        run.check(verdict is True, 'R11.indep', li, 'layer.independent_from', 'a layer is independent from a gate iff ALL of its gates are: for (layer gates, incoming gate) = %s '
                   'the layer answers otherwise (a gate that overlaps one gate of the layer would be packed into it or slide past it)' % (repr(verdict) if verdict is not True else '',))
 
 
@@ -168,11 +177,8 @@ def check(run):
                 from ..rules import effect as E2_
                 if cname in COPY_FIELDS:
                     E2_.check_copy(run, eff, c.methods['copy'], COPY_FIELDS[cname])     # the copy is the same circuit: every field carried over
+                # order and links of the copy are decided by executing the method on a three-layer circuit (R10.link)
                 CR.check_linked_list(run, c.methods['copy'])
-                cp = c.methods['copy']
-                loops = [st for st, _ in walk(cp.node) if isinstance(st, ast.For)]
-                run.check(any(CR.iter_direction(l.iter, dirs) == CR.ASC for l in loops), 'R10.order', cp, 'copy',
-                          'copy must rebuild the chain in forward order')
             if 'compose' in c.methods:
                 cm = c.methods['compose']
                 oth = cm.posparams[1]
